@@ -13,7 +13,7 @@ RULE = (
     "signs, shifts incl. +-0.5, all rotation classes incl. gimbal lock, 1..4 tomograms, column permutation, non-default "
     "row labels) and a history of 1..6 operations from {update_coordinates, scale_coordinates(f in 0.1..8), "
     "shift_positions(s) in place or not, apply_rotation(Q), flip_handedness(single [x,y,z]), flip_handedness(per-"
-    "tomogram table as array/DataFrame, rows in any order, extra tomograms absent from the list), flip twice}. Model: "
+    "tomogram table as array / DataFrame / text file (same path reused along the history), rows in any order, extra tomograms absent from the list), flip twice}. Model: "
     "per particle a complete position vector and an explicit 3x3 orientation matrix updated by the stated law "
     "(update: unchanged; scale: p*f; shift: p + R s; rotate: R Q; flip: p_z := dim_z+1-p_z, R := M R M, M = diag(1,1,-1)). "
     "After EVERY step: get_coordinates() == model, orientation matrices == model, all non-pose fields and the row order "
@@ -46,7 +46,7 @@ def op(draw):
     elif k == "rotate":
         o["q"] = draw(gen.euler())
     elif k in ("flip_table", "flip_twice"):
-        o["form"] = draw(st.sampled_from(["array", "frame"]))
+        o["form"] = draw(st.sampled_from(["array", "frame", "file"]))
         o["perm"] = draw(st.integers(0, 10**6))
         o["use_table"] = draw(st.booleans()) if k == "flip_twice" else True
     return o
@@ -186,7 +186,13 @@ def run(case):
                 zdim = np.full(n, float(d[2]))
             else:
                 tab = dims_table(case, o, tomo)
-                arg = tab if o["form"] == "array" else pd.DataFrame(tab)
+                if o["form"] == "file":
+                    np.savetxt("dims_%d.txt" % step, tab, fmt="%d")
+                    arg = "dims_%d.txt" % step if len(tab) > 1 or True else None
+                    np.savetxt("dims_all.txt", tab, fmt="%d")
+                    arg = "dims_all.txt"  # the same path in every step of the history
+                else:
+                    arg = tab if o["form"] == "array" else pd.DataFrame(tab)
                 look = {int(r[0]): r[3] for r in tab}
                 zdim = np.array([look[int(t)] for t in tomo])
                 if any(int(r[0]) not in set(int(t) for t in tomo) for r in tab):
@@ -194,7 +200,7 @@ def run(case):
             before20 = m.df[oracle.MOTL_COLUMNS].to_numpy().copy()
             reps = 2 if k == "flip_twice" else 1
             for rep in range(reps):
-                arg_i = arg.copy() if hasattr(arg, "copy") else list(arg)
+                arg_i = arg if isinstance(arg, str) else (arg.copy() if hasattr(arg, "copy") else list(arg))
                 ok, _ = call(out, "flip_handedness", lambda: m.flip_handedness(arg_i))
                 if not ok:
                     return out
